@@ -222,6 +222,10 @@ def _faulty(kind, mode, x):
         assert False
     if kind == "raise_keyerror":
         raise KeyError("missing-key")
+    if kind == "raise_stopiteration":       # e.g. next() on an exhausted data iterator inside the target
+        raise StopIteration
+    if kind == "raise_generatorexit":
+        raise RuntimeError("generator raised StopIteration")
     if kind == "nan":
         return wrap(float("nan"))
     if kind == "posinf":
